@@ -41,7 +41,8 @@ func init() {
 			f := strings.Split(it, ":")
 			l = append(l, object.NewQuadkeyAndVerticalID(atoi(f[0]), atoi(f[1]), atoi(f[2]), atoi(f[3]), 0, 0))
 		}
-		return setOrErr(transform.ConvertQuadkeysAndVerticalIDsToExtendedSpatialIDs(l, atoi(a[1]), atoi(a[2])))
+		r, err := transform.ConvertQuadkeysAndVerticalIDsToExtendedSpatialIDs(l, atoi(a[1]), atoi(a[2]))
+		return setOrErrZ(r, err, 0, 35, atoi(a[1]), atoi(a[2]))
 	})
 	// qv2sp: the spatial-ID variant (one output zoom for both axes)
 	op("qv2sp", func(a []string) string {
@@ -50,7 +51,8 @@ func init() {
 			f := strings.Split(it, ":")
 			l = append(l, object.NewQuadkeyAndVerticalID(atoi(f[0]), atoi(f[1]), atoi(f[2]), atoi(f[3]), 0, 0))
 		}
-		return setOrErr(transform.ConvertQuadkeysAndVerticalIDsToSpatialIDs(l, atoi(a[1])))
+		r, err := transform.ConvertQuadkeysAndVerticalIDsToSpatialIDs(l, atoi(a[1]))
+		return setOrErrZ(r, err, 0, 35, atoi(a[1]))
 	})
 	// index form with equal NON-ZERO heights (max == min selects the index form whatever the common value is)
 	op("qv2exte", func(a []string) string {
